@@ -407,7 +407,7 @@ struct SV {
             }
         }
         if (h.err.empty()) { h.err = lt::check_empty(); }
-        h.labels("static_vector", stats, k, MA ? "mvsf" : "mv");
+        h.labels("static_vector", stats, k, MA ? (N >= 3 ? "mvsf" : "vsf") : (N >= 3 ? "mv" : "v")); // a middle position needs 3 elements
         return h.err;
     }
 };
